@@ -414,3 +414,176 @@ def abandon_program(rng, ncases, lanes=ALL_LANES, big=False):
             prog["steps"].append({"op": "h_drop", "lane": lane, "h": w})
         observe_all(prog, rng, lanes, okkeys + ([key] if key else []), [("sha256", d_ok)], read=False)
     return prog
+
+
+# ---------------------------------------------------------------------------------------
+# retrieval of pristine and damaged content (C01, C18), algorithms (C16)
+# ---------------------------------------------------------------------------------------
+
+BUFSIZES = [1, 7, 1024, 8192, 65536]
+
+
+def retrieval_steps(rng, prog, lanes, key, algo, d, xcount, which=None, dest_exists_p=0.25):
+    """every checked (and some unchecked) retrieval entry point for one entry"""
+    st = []
+    sri = [{"a": algo, "d": d}]
+    kinds = which or ["read_k", "read_h", "reader_k", "reader_h", "copy", "hard_link", "reflink",
+                      "copy_u", "hard_link_u"]
+    for kind in kinds:
+        lane = rng.choice(lanes)
+        if kind == "read_k":
+            st.append({"op": "read", "lane": lane, "key": key})
+        elif kind == "read_h":
+            st.append({"op": "read", "lane": lane, "sri": sri})
+        elif kind in ("reader_k", "reader_h"):
+            r = "r%d" % xcount[0]
+            xcount[0] += 1
+            s = {"op": "open_reader", "lane": lane, "as": r}
+            if kind == "reader_k":
+                s["key"] = key
+            else:
+                s["sri"] = sri
+            st.append(s)
+            bs = rng.choice(BUFSIZES)
+            if rng.random() < 0.7:
+                st.append({"op": "r_read", "lane": lane, "h": r, "n": bs, "all": True})
+            else:
+                for _ in range(rng.randrange(0, 3)):
+                    st.append({"op": "r_read", "lane": lane, "h": r, "n": bs})
+            st.append({"op": "r_check", "lane": lane, "h": r})
+        else:
+            base = kind.replace("_u", "")
+            checked = not kind.endswith("_u")
+            x = "x%d" % xcount[0]
+            xcount[0] += 1
+            if rng.random() < dest_exists_p:
+                st.append({"op": "env_ext", "id": x, "blob": prog["_pre"]})
+            s = {"op": "extract", "lane": lane, "kind": base, "checked": checked, "to": x}
+            if rng.random() < 0.5:
+                s["key"] = key
+            else:
+                s["sri"] = sri
+            st.append(s)
+    return st
+
+
+def damage_steps(rng, prog, algo, d, n, others, exhaustive_small=False):
+    """list of alternative damage steps for the content file of (algo, d)"""
+    alts = []
+    if n > 0:
+        alts.append({"op": "env_content", "algo": algo, "blob": d, "mode": "flip", "bit": rng.randrange(n * 8)})
+        alts.append({"op": "env_content", "algo": algo, "blob": d, "mode": "cut", "len": rng.randrange(0, n)})
+        alts.append({"op": "env_content", "algo": algo, "blob": d, "mode": "empty"})
+        alts.append({"op": "env_content", "algo": algo, "blob": d, "mode": "overwrite", "off": rng.randrange(n),
+                     "bytes": bytes(rng.randrange(256) for _ in range(rng.randrange(1, 9))).hex()})
+    alts.append({"op": "env_content", "algo": algo, "blob": d, "mode": "extend",
+                 "extra": bytes(rng.randrange(256) for _ in range(rng.randrange(1, 5))).hex()})
+    alts.append({"op": "env_content", "algo": algo, "blob": d, "mode": "remove"})
+    if others:
+        o = rng.choice(others)
+        alts.append({"op": "env_content", "algo": algo, "blob": d, "mode": "replace", "with": o[1]})
+        alts.append({"op": "env_content", "algo": algo, "blob": d, "mode": "swap",
+                     "other": {"algo": o[0], "blob": o[1]}})
+    alts.append({"op": "_link_damage"})
+    return alts
+
+
+def retrieve_program(rng, rounds, lanes=ALL_LANES, big=False, algos=ALGOS, exhaustive=None):
+    prog = {"keys": {}, "blobs": {}, "steps": []}
+    prog["_pre"] = add_blob(prog, b"pre-existing destination")
+    entries = []
+    sizes = [MIB - 1, MIB + 1] if big else [0, 1, 5, 40, 1000, 9000]
+    for i in range(3 if not big else 2):
+        n = rng.choice(sizes)
+        d = _mk_data(prog, rng, n)
+        a = rng.choice(algos)
+        k = add_key(prog, rand_key(rng, i))
+        prog["steps"].append({"op": "write", "lane": rng.choice(lanes), "key": k, "data": d, "algo": a})
+        entries.append((k, a, d, n))
+    xc = [0]
+    foreign = add_blob(prog, b"bytes of a file outside the cache %d" % rng.randrange(10 ** 6))
+    for r in range(rounds):
+        k, a, d, n = rng.choice(entries)
+        others = [(aa, dd) for (_, aa, dd, _) in entries if dd != d]
+        if exhaustive is not None:
+            dmg = exhaustive(r, a, d, n)
+            if dmg is None:
+                break
+        else:
+            dmg = rng.choice(damage_steps(rng, prog, a, d, n, others) + [None])
+        if dmg is not None:
+            if dmg["op"] == "_link_damage":
+                x = "lt%d" % r
+                prog["steps"].append({"op": "env_ext", "id": x, "blob": rng.choice([foreign, d])})
+                prog["steps"].append({"op": "env_content", "algo": a, "blob": d, "mode": "link", "to": x})
+            else:
+                prog["steps"].append(dmg)
+        which = None
+        if big or exhaustive is not None:
+            which = rng.sample(["read_k", "read_h", "reader_k", "reader_h", "copy", "hard_link", "reflink"], 3)
+        prog["steps"] += retrieval_steps(rng, prog, lanes, k, a, d, xc, which)
+        # heal: re-writing the same data replaces whatever is at the address
+        prog["steps"].append({"op": "write", "lane": rng.choice(lanes), "key": k, "data": d, "algo": a})
+        if dmg is not None and dmg.get("mode") == "swap":
+            o = dmg["other"]
+            prog["steps"].append({"op": "write", "lane": rng.choice(lanes), "data": o["blob"], "algo": o["algo"]})
+    del prog["_pre"]
+    return prog
+
+
+def exhaustive_small_damage(n):
+    """every single-bit flip and every truncation length of an n-byte file"""
+    plan = [("flip", b) for b in range(n * 8)] + [("cut", l) for l in range(n)]
+
+    def f(r, a, d, nn):
+        if r >= len(plan):
+            return None
+        m, v = plan[r]
+        if m == "flip":
+            return {"op": "env_content", "algo": a, "blob": d, "mode": "flip", "bit": v}
+        return {"op": "env_content", "algo": a, "blob": d, "mode": "cut", "len": v}
+    return f, len(plan)
+
+
+def small_exhaustive_program(rng, n, algo, lanes=ALL_LANES):
+    """one n-byte entry; all bit flips and truncations; three retrieval entry points each"""
+    prog = {"keys": {}, "blobs": {}, "steps": []}
+    prog["_pre"] = add_blob(prog, b"pre-existing destination")
+    d = add_blob(prog, bytes(rng.randrange(256) for _ in range(n)))
+    k = add_key(prog, rand_key(rng, 0))
+    prog["steps"].append({"op": "write", "lane": rng.choice(lanes), "key": k, "data": d, "algo": algo})
+    f, total = exhaustive_small_damage(n)
+    xc = [0]
+    for r in range(total):
+        prog["steps"].append(f(r, algo, d, n))
+        which = rng.sample(["read_k", "read_h", "reader_k", "reader_h", "copy", "hard_link", "reflink"], 3)
+        prog["steps"] += retrieval_steps(rng, prog, lanes, k, algo, d, xc, which, dest_exists_p=0.1)
+        prog["steps"].append({"op": "write", "lane": rng.choice(lanes), "data": d, "algo": algo})
+    del prog["_pre"]
+    return prog
+
+
+def algo_program(rng, ncases, lanes=ALL_LANES):
+    """C16: equal data re-written under same/different keys, entry points, algorithms"""
+    prog = {"keys": {}, "blobs": {}, "steps": []}
+    datas = [_mk_data(prog, rng, n) for n in (0, 1, 50, 3000)]
+    keys = [add_key(prog, rand_key(rng, i)) for i in range(5)]
+    seen = set()
+    for c in range(ncases):
+        d = rng.choice(datas)
+        a = rng.choice(ALGOS)
+        lane = rng.choice(lanes)
+        k = rng.choice(keys + [None])
+        how = rng.choice(["oneshot", "opts", "create_with_algo"])
+        if k is None and how == "create_with_algo":
+            how = "opts"
+        n = len(bytes.fromhex(prog["blobs"][d]["hex"])) if d != "empty" else 0
+        prog["steps"] += write_steps(rng, prog, lane, d, n, a, k, how, rng.choice(chunkings(rng, n)),
+                                     {"size": n} if rng.random() < 0.4 else {}, alias="w%d" % c)
+        seen.add((a, d))
+        r = rng.random()
+        if r < 0.15 and seen:
+            aa, dd = rng.choice(sorted(seen))
+            prog["steps"].append({"op": "remove_hash", "lane": rng.choice(lanes), "sri": [{"a": aa, "d": dd}]})
+        observe_all(prog, rng, lanes, keys, sorted(seen), with_list=(rng.random() < 0.3))
+    return prog
